@@ -761,6 +761,62 @@ def signature_cells(ctx):
                 ctx.outcome("after-removal-silent")
 
 
+def shared_prefix_cells(ctx):
+    """one handler registered under two names that share their first link;
+    removing one registration leaves the other exactly as observe leaves its
+    counterpart: link changes still reported, the new object followed"""
+    for keep_name, drop_name in (("child.value", "child.tagged"),
+                                 ("child.tagged", "child.value"),
+                                 ("child.value", "child.child"),
+                                 ("child.value", "child:tagged")):
+        case = {"shared_prefix": keep_name, "dropped": drop_name}
+        ctx.case(case)
+        ctx.ev()
+        ctx.tr()
+        hist = [["shared_prefix", keep_name, drop_name]]
+        pool = G.make_pool()
+        root, n1, n2 = pool
+        root.child = n1
+        calls, ocalls = [], []
+
+        def h(obj, nm, old, new):
+            calls.append(nm)
+
+        def oh(ev):
+            ocalls.append(ev.name)
+        root.on_trait_change(h, keep_name)
+        root.on_trait_change(h, drop_name)
+        root.observe(oh, keep_name)
+        root.observe(oh, drop_name)
+        root.on_trait_change(h, drop_name, remove=True)
+        root.observe(oh, drop_name, remove=True)
+        leaf = keep_name.split(".")[-1]
+        root.child = n2
+        if len(calls) != len(ocalls):
+            ctx.violation(
+                "C16:shared-prefix:link-report",
+                "handler registered under %r and %r, the second registration "
+                "removed: re-assigning the shared link called the handler "
+                "%d time(s), observe's counterpart %d time(s)"
+                % (keep_name, drop_name, len(calls), len(ocalls)),
+                history=hist)
+            continue
+        for o, exp in ((n1, 0), (n2, 1)):
+            calls.clear()
+            setattr(o, leaf, getattr(o, leaf) + 1)
+            if len(calls) != exp:
+                ctx.violation(
+                    "C16:shared-prefix:leaf",
+                    "handler registered under %r and %r, the second "
+                    "registration removed: changing %s of the %s object "
+                    "gave %d call(s), expected %d" % (
+                        keep_name, drop_name, leaf, "detached" if exp == 0
+                        else "new", len(calls), exp), history=hist)
+                break
+        else:
+            ctx.outcome("after-removal-silent")
+
+
 def link_report_cells(ctx):
     """a re-assigned '.' link is itself reported, once, to a handler of
     every signature - from None as well as from another object - exactly
@@ -924,6 +980,7 @@ def run_shard(ctx, shard, tier):
     if pair == "__signature__":
         signature_cells(ctx)
         link_report_cells(ctx)
+        shared_prefix_cells(ctx)
         ctx.depth_completed = 1
         return
     evs = menu(pair)
@@ -959,6 +1016,11 @@ def replay(rec):
     from mc.ctx import Ctx
     ctx = Ctx("C16", None, "quick", 0)
     c = rec.get("case") or rec
+    if "shared_prefix" in c:
+        shared_prefix_cells(ctx)
+        for v in ctx.violations.values():
+            print("  violation:", v["sig"], v["msg"])
+        return not ctx.violations
     if "link_report" in c:
         link_report_cells(ctx)
         for v in ctx.violations.values():
